@@ -362,6 +362,7 @@ class SimEnv:
         self.on_rx_wait = None              # fn(link_index) called when receive_packet is entered
         self.on_tx = None                   # fn(link_index, header, data, status) at every send_packet
         self.hello = False                  # True: an unsolicited console packet is queued at connect
+        self.hello_packets = None           # further unsolicited (header, payload) packets queued at connect
 
 
 def make_driver_class():
@@ -400,6 +401,9 @@ def make_driver_class():
             if env.hello:
                 # a real Crazyflie talks unasked (console text): there is a packet waiting as soon as the link is up
                 self.in_queue.queue.append(CRTPPacket(0x00, bytearray(b'hello')))
+            for (h, payload) in (env.hello_packets or ()):
+                # other unsolicited packets the firmware may have queued (e.g. a parameter value-changed notification)
+                self.in_queue.queue.append(CRTPPacket(h, bytearray(payload)))
 
         def send_packet(self, pk):
             env = self.env
